@@ -240,6 +240,10 @@ def run_valid(ctx, pq, doc, origin):
 
 
 # ------------------------------------------------------------------------- mutation operators
+PREPARATION_TYPES = ("Vacuum", "NumberState", "StateVector", "DensityMatrix", "Mean", "Covariance", "Thermal", "FockStateVector",
+                     "DistinguishableNumberState")
+
+
 def _gate_positions(doc):
     return [i for i, x in enumerate(doc["ins"]) if x.get("m") and x["t"] not in ("NumberState", "FockStateVector", "Vacuum")]
 
@@ -292,6 +296,17 @@ def mutants_of(rng, doc):
                 "fgaussian": {"t": "NumberState", "m": None, "p": {"occupation_numbers": [0] * d}}}[sim]
         m["ins"].insert(k + 1, prep)
         out.append(("preparation-after-gate", m, {"position": k + 1}))
+        # preparation after a measurement, with no gate anywhere before it (the rule must not depend on a gate having
+        # been seen: a seeded change that let only gates close the preparation phase was caught by one case in 5000)
+        midm = {"purefock": ("ParticleNumberMeasurement", {}), "passive": ("ParticleNumberMeasurement", {}),
+                "ffock": ("ParticleNumberMeasurement", {}), "gaussian": ("HomodyneMeasurement", {"phi": 0.0})}.get(sim)
+        if midm is not None and d >= 2:
+            preps = [copy.deepcopy(x) for x in doc["ins"] if x["t"] in PREPARATION_TYPES]
+            if preps:
+                m = copy.deepcopy(doc)
+                m["ins"] = preps + [{"t": midm[0], "m": [int(rng.integers(0, d))], "p": dict(midm[1])}, copy.deepcopy(prep)]
+                m["shots"] = 1 if sim == "gaussian" else m.get("shots")
+                out.append(("preparation-after-measurement", m, {"position": len(preps) + 1}))
         # instruction the simulator does not support
         unsupported = {"purefock": ("ThresholdMeasurement", {}), "fock": ("Squeezing_unsupported", None), "gaussian": ("Kerr", {"xi": 0.1}),
                        "passive": ("Squeezing", {"r": 0.1, "phi": 0.0}), "ffock": ("Squeezing", {"r": 0.1, "phi": 0.0}),
